@@ -387,6 +387,7 @@ def runtime_rule(ctx):
         # private helper it calls
         lits = [p_[1] for n in sir.walk_reach(tc, f) for p_ in ((sir.write_fmt_call(n) or (None, []))[1]) if p_[0] == "lit"]
         loops_subp = any(n.get("k") == "for" and any(x.get("k") == "mcall" and x["m"] == "to_path_analysis_str" for x in sir.walk(n["body"])) for n in sir.walk_reach(tc, f))
+        lits += [n["v"] for n in sir.walk_reach(tc, f) if n.get("k") == "lit" and n.get("t") == "str"]   # literals chosen by an `if` expression
         pre = any(l.startswith("!!") for l in lits) and any(l.endswith("||") for l in lits) and loops_subp
         obs.append(ob("C06.runtime/group-prefix", pre, ctx.where(f), "the accumulated sub-paths are emitted as a `!!(..||..)||` prefix: %s" % pre))
     return obs
